@@ -73,6 +73,7 @@ class Explorer:
         self.max_depth = max_depth
         self._relevant = None
         self.memo = {}
+        self.cuts = []
         self.inprogress = set()
         self.visited_fns = set()
         self.stats = {"summaries": 0, "block_states": 0}
@@ -140,13 +141,19 @@ class Explorer:
         if key in self.memo:
             return self.memo[key]
         if key in self.inprogress or depth > self.max_depth:
+            self.cuts.append(key)
             return ({q: None}, {})  # recursion: treat as no further effect
         self.inprogress.add(key)
         self.stats["summaries"] += 1
         self.visited_fns.add(fn.id)
+        mark = len(self.cuts)
         exits, terms = self._run(fn, env, q, depth)
         self.inprogress.discard(key)
-        self.memo[key] = (exits, terms)
+        # a summary computed while a cycle through a still unfinished caller was cut is provisional:
+        # it must not be reused for other contexts
+        provisional = any(h in self.inprogress for h in self.cuts[mark:])
+        if not provisional:
+            self.memo[key] = (exits, terms)
         return exits, terms
 
     def _apply(self, q, sym):
